@@ -200,6 +200,8 @@ class Pkg(object):
         _canon.CLASS_METHODS.update(_canon.build_class_methods([m.tree for m in self.mods.values()]))
         _canon.RET_ARITY.clear()
         _canon.RET_ARITY.update(_canon.build_ret_arity([m.tree for m in self.mods.values()]))
+        _canon.NONNULL_LIST_PARAMS.clear()
+        _canon.NONNULL_LIST_PARAMS.update(_canon.build_nonnull_list_params([m.tree for m in self.mods.values()]))
         from .known_funcs import KNOWN as _KNOWN
         _canon.FOREIGN_HOME_MODULES.clear()
         _canon.FOREIGN_HOME_MODULES.update(n for n in self.mods if "." not in n)
